@@ -95,6 +95,8 @@ def run(prog: Program, L: Ledger) -> None:
     L.rule("T4", "every context slot is emitted, a handle, per-trial scratch (assigned in reset) or recomputed by validate_simulation; from_dict restores rng state in place after construction, attributes, context, move table")
     L.rule("T6", "the restart writer keeps dictionary insertion order (no key sorting by default): the move table is rebuilt in file order and scheduled by position")
     L.rule("T7", "per-move state that is not in the file but derived on load (unique_labels, recomputed by set_labels) is only ever produced by that same function during a run")
+    L.rule("T8", "state outside the file — the calculator's cached results — never decides what a run reports: after every accepted / rejected / failed trial the cache either belongs to the current configuration or is recomputed (a restarted run starts with an EMPTY cache; whatever a revert 'restores' into it in place is lost there)")
+    _check_cache_independence(prog, L)
     L.rule("T5", "every class name reachable from a driver's dictionary is registered and admitted by the lookup base at its reading site")
     L.assume(asetab.validate_json_todict())
 
@@ -442,3 +444,31 @@ def _check_context_state(prog: Program, L: Ledger, d: ClassInfo) -> None:
     for k in cs.items:
         L.check(k in slots, "T4", f"{d.name}:{ctxc.name}.to_dict[{k}]", ctxc.where,
                 f"context dictionary key {k!r} is not a slot of {ctxc.name}", f"{d.name}.from_dict -> AttributeError in the context setattr loop", k)
+
+
+def _check_cache_independence(prog: Program, L: Ledger) -> None:
+    """T8 (abstract heap, shared with C04's E1/E2): the energies a run logs are equal for the uninterrupted and the
+    restarted run only if they never depend on what the calculator cache held before — i.e. after every trial the cached
+    results are those of the current configuration, and the reference energy / remembered results are too."""
+    from ..scenarios import run_all, scenarios
+
+    scs = scenarios(prog, with_composites=False, iterations=1)
+    L.floor("driver × move scenarios for the calculator cache", len(scs), 8)
+    n = 0
+    seen = set()
+    for label, stats, findings, oks, err in run_all(prog, "qsa.props.c04", scs):
+        if err:
+            raise AnalysisError(f"scenario {label}: {err}")
+        n += stats["trials"]
+        for f in findings:
+            if f["rule"] not in ("E1", "E2"):
+                continue  # E3 (cost of a rejection) and E5 (calculator-internal state) are C04's own clauses
+            key = (f["rule"], f["construct"])
+            if key in seen:
+                continue
+            seen.add(key)
+            L.violation("T8", f["construct"], f["where"], f["detail"] + " — an uninterrupted run and a run restarted at this point (fresh calculator, empty cache) report different energies",
+                        f["witness"], f.get("stmt", ""))
+    if not seen:
+        L.ok("T8", "drivers:cache-independence", "src/quansino/mc", f"{n} abstract trials")
+    L.floor("abstract trials checked for cache independence", n, 100)
